@@ -7,14 +7,16 @@ import json, os, subprocess, sys, tempfile, shutil
 VERIF = os.path.dirname(os.path.dirname(os.path.abspath(__file__)))
 args = [a for a in sys.argv[1:] if not a.startswith('--')]
 tier = 'thorough' if '--tier' in sys.argv and sys.argv[sys.argv.index('--tier') + 1] == 'thorough' else 'quick'
-exp = json.load(open(os.path.join(VERIF, 'refactorings', 'expected.json')))['false_alarm']
+CORPORA = ['refactorings', 'refactorings2']
 wt = tempfile.mkdtemp(prefix='refac-')
 os.rmdir(wt)
 subprocess.check_call(['git', '-C', '/repo', 'worktree', 'add', '--detach', '-q', wt, 'HEAD'])
 bad = 0
 try:
-    for prop in sorted(os.listdir(os.path.join(VERIF, 'refactorings'))):
-        d = os.path.join(VERIF, 'refactorings', prop)
+  for corpus in CORPORA:
+    exp = json.load(open(os.path.join(VERIF, corpus, 'expected.json')))['false_alarm']
+    for prop in sorted(os.listdir(os.path.join(VERIF, corpus))):
+        d = os.path.join(VERIF, corpus, prop)
         if not os.path.isdir(d) or (args and prop not in args):
             continue
         for r in ('r1', 'r2', 'r3'):
@@ -34,7 +36,7 @@ try:
             ok = res.returncode == want
             bad += 0 if ok else 1
             first = next((l for l in res.stdout.splitlines() if 'DETAIL' in l), '')
-            print('%s %s exit=%d%s %s' % ('ok   ' if ok else 'FAIL ', key, res.returncode, ' (listed false alarm)' if key in exp else '', first[17:130] if res.returncode else ''))
+            print('%s %s:%s exit=%d%s %s' % ('ok   ' if ok else 'FAIL ', corpus, key, res.returncode, ' (listed false alarm)' if key in exp else '', first[17:130] if res.returncode else ''))
 finally:
     subprocess.call(['git', '-C', '/repo', 'worktree', 'remove', '--force', wt])
 sys.exit(1 if bad else 0)
